@@ -30,7 +30,7 @@ CONFIGS = [
 def alphabet(cfg: dict) -> list[tuple]:
     L, T = cfg["L"], cfg["Tmin"] * 60
     return [("poll", "c1"), ("poll", "r2"), ("start", 0), ("start", 1), ("finish", 0), ("hb", "c1"), ("hb", "r2"),
-            ("parent_report",), ("adv", L - 3 * U), ("adv", T - 3 * U), ("adv", U), ("recP",), ("recR",)]
+            ("own_hb", "c1"), ("parent_report",), ("adv", L - 3 * U), ("adv", T - 3 * U), ("adv", U), ("recP",), ("recR",)]
 
 
 # every operation takes one clock unit, so after `poll; adv(L-3u)` the age is L-u, one more operation
@@ -39,6 +39,9 @@ def alphabet(cfg: dict) -> list[tuple]:
 SEEDS = {
     "running-own-heartbeat": [("poll", "c1"), ("start", 0), ("hb", "c1")],
     "running-parent-report": [("poll", "c1"), ("start", 0), ("parent_report",)],
+    # the child's own heartbeat as a runner sends it (should_run_atomic_service registers it as eligible for the
+    # global services), later kept alive only by its parent's reports
+    "running-own-atomic-heartbeat": [("poll", "c1"), ("start", 0), ("own_hb", "c1")],
     "two-held": [("poll", "c1"), ("poll", "r2"), ("start", 0)],
 }
 
@@ -112,6 +115,9 @@ class Impl(bfs.System):
                     res = ("ok",)
             elif kind == "hb":
                 orch.register_runner_heartbeats([op[1]])
+                res = ("ok",)
+            elif kind == "own_hb":
+                orch.should_run_atomic_service(runner_ctx(op[1]))  # what BaseRunner._check_atomic_services calls
                 res = ("ok",)
             elif kind == "parent_report":
                 self.parent._report_child_runner_heartbeats()
@@ -196,7 +202,7 @@ class Model(bfs.System):
                 res = ("n/a",)
             else:
                 self.inv[op[1]] = ["SUCCESS", None, self.now, v[3] + 1]
-        elif kind == "hb":
+        elif kind in ("hb", "own_hb"):
             self.hb[op[1]] = self.now
         elif kind == "parent_report":
             self.hb["c1"] = self.now
